@@ -276,7 +276,7 @@ def strategy():
         shape = []
         prod = 1
         for _ in range(order):
-            d = draw(st.one_of(st.integers(1, 12), st.sampled_from([1, 2, 3, 7, 12])))
+            d = draw(st.one_of(st.integers(1, 12), st.sampled_from([1, 2, 3, 7, 12]), st.integers(1, 64)))
             if prod * d > 20000:
                 d = 1
             shape.append(d)
